@@ -748,7 +748,25 @@ namespace {
   bool hasNonStandardName(const east::Shape& s) { return s.funs1.count(6) /*ln*/ || s.funs1.count(27) /*H*/; }
 
   //! compile a batch of formulas and compare; `knownClasses`: do not skip the known classes
+  void cxxBatchImpl(verif::Case& c, const int nmax, const bool knownIntLit, const bool knownNames, const Wrap& wrap);
+  /*!
+   * Every execution costs a compilation: once a failure has been seen, rapidcheck's shrinking is
+   * given a budget of 60 further compilations, after which the executions are discarded (the
+   * shrink stops at the smallest failing case found so far; the verdict and the replay are
+   * unaffected: a replay is a fresh process).
+   */
   void cxxBatch(verif::Case& c, const int nmax, const bool knownIntLit, const bool knownNames, const Wrap& wrap = {}) {
+    static std::map<std::string, std::pair<int, int>> budget;  // per sub-check: failures, executions after the first one
+    auto& b = budget[c.sub()];
+    if (b.first > 0 && c.mode() == verif::Case::GENERATE && ++b.second > 60) c.discard();
+    try {
+      cxxBatchImpl(c, nmax, knownIntLit, knownNames, wrap);
+    } catch (const verif::Failure&) {
+      ++b.first;
+      throw;
+    }
+  }
+  void cxxBatchImpl(verif::Case& c, const int nmax, const bool knownIntLit, const bool knownNames, const Wrap& wrap) {
     const int n = static_cast<int>(c.integer(1, nmax, "batch"));
     CxxUnit u;
     std::vector<Formula> fs;
